@@ -389,10 +389,20 @@ class DisjunctionMaxMatcher(UnionMatcher):
             return max(a.score(), b.score())
 
     def max_quality(self):
-        return max(self.a.max_quality(), self.b.max_quality())
+        q = 0.0
+        if self.a.is_active():
+            q = max(q, self.a.max_quality())
+        if self.b.is_active():
+            q = max(q, self.b.max_quality())
+        return q
 
     def block_quality(self):
-        return max(self.a.block_quality(), self.b.block_quality())
+        bq = 0.0
+        if self.a.is_active():
+            bq = max(bq, self.a.block_quality())
+        if self.b.is_active():
+            bq = max(bq, self.b.block_quality())
+        return bq
 
     def skip_to_quality(self, minquality):
         self._id = None
